@@ -13,9 +13,11 @@ def alarms(path):
 print("| change | file / function | what it breaks | own check | other checks that alarm | first failed obligation |")
 print("|--------|-----------------|----------------|-----------|--------------------------|-------------------------|")
 tot = caught = 0
-for d in sorted(glob.glob('seeded/*/*/')) + sorted(glob.glob('seeded2/*/*/')):
+for d in sorted(glob.glob('seeded/*/*/')) + sorted(glob.glob('seeded2/*/*/')) + sorted(glob.glob('seeded3/*/*/')):
     pid, k = d.split('/')[1], d.split('/')[2]
-    if d.startswith('seeded2'):
+    if d.startswith('seeded3'):
+        k = 'r3-' + k
+    elif d.startswith('seeded2'):
         k = 'r2-' + k
     meta = json.load(open(d + 'meta.json')) if os.path.exists(d + 'meta.json') else {}
     al = alarms(d + 'result.all.txt') or []
